@@ -165,7 +165,7 @@ var c12PoolDef = []c12Info{
 	{Hash: "h5", Names: []string{"a.x"}, Managed: true, IssuerKey: "i2"},
 	{Hash: "h6", Names: []string{"c.x", "*.x"}},
 	{Hash: "h7", Names: []string{"d.y", "a.x", "*.b.x"}, Managed: true, IssuerKey: "i1"},
-	{Hash: "h8", Names: []string{"*.*.x", "a.x", "a.x"}},
+	{Hash: "h8", Names: []string{"*.*.x", "a.x", "a.x", "*.*"}},
 }
 
 // which pool certificates have a fresh OCSP staple / newer ARI in storage
